@@ -10,7 +10,7 @@
    result  :=  <id> <n_Goto> <n_GotoReg> <n_Branch> <n_BranchBool> <n_BoolNormalise> <n_Guard>
                <n_GuardEntry> <n_GuardVla> <n_Undo> <n_PreemptStatic> <n_PreemptVirtual>
                <n_Speculation> <n_SpeculationNoMov> <n_DefeatVirtual> <n_DefeatVirtualCond>
-               <n_StopInstall> <n_ReturnProtection> <sequential_only:0|1> | <unclassified pcs, decimal>
+               <n_StopInstall> <n_ReturnProtection> <n_Call> <sequential_only:0|1> | <unclassified pcs, decimal>
    Numbers in the input are binary strings with optional '-' (Z stays the extracted type). *)
 open Hidpat_core
 
@@ -65,7 +65,7 @@ let tag = function
   | Goto _ -> 0 | GotoReg _ -> 1 | Branch _ -> 2 | BranchBool _ -> 3 | BoolNormalise _ -> 4
   | Guard _ -> 5 | GuardEntry _ -> 6 | GuardVla _ -> 7 | Undo _ -> 8 | PreemptStatic _ -> 9
   | PreemptVirtual _ -> 10 | Speculation _ -> 11 | SpeculationNoMov _ -> 12 | DefeatVirtual -> 13
-  | DefeatVirtualCond _ -> 14 | StopInstall _ -> 15 | ReturnProtection _ -> 16
+  | DefeatVirtualCond _ -> 14 | StopInstall _ -> 15 | ReturnProtection _ -> 16 | Call _ -> 17
 
 let () =
   let id = ref "" and w = ref Z0 and dfa = ref None and code = ref [] in
@@ -84,7 +84,7 @@ let () =
           let c = { cw = !w; cdefeat = !dfa } in
           let prog = List.rev !code in
           let res = classify_all c prog in
-          let counts = Array.make 17 0 in
+          let counts = Array.make 18 0 in
           let bad = ref [] and seq = ref true in
           List.iter (fun (pc, r) ->
             match r with
